@@ -3,5 +3,5 @@
 # Rebuilds nothing from a cache of results: storcheck loads and type-checks /repo's working tree on every run.
 cd "$(dirname "$0")"
 export GOFLAGS=-mod=mod GOPROXY=off GOSUMDB=off GOTOOLCHAIN=local GOWORK=off
-[ -x bin/storcheck ] || ./setup.sh >/dev/null 2>&1 || { echo "setup failed"; exit 2; }
+if [ ! -x bin/storcheck ] || [ -n "$(find checker -name '*.go' -newer bin/storcheck 2>/dev/null | head -1)" ]; then ./setup.sh >&2 || { echo "setup failed" >&2; exit 2; }; fi
 exec ./bin/storcheck -prop "$1" -tier "${2:-quick}" -repo /repo -verif "$(pwd)"
